@@ -106,62 +106,51 @@ def rule_nop(ctx):
     ctx.analysed("cursor.FakeSnowflakeCursor.execute")
     PAT = Const("^CALL")
     n_match = n_nomatch = 0
-    for tr in run_execute(prog, "SELECT", None, nop_regexes=Lst([PAT]), variables={"V": Const("1")},
-                          params=Tup([Sym("P1")]), paramstyle="pyformat"):
-        matches = [e for e in tr.path.effects if e[0] == "call" and e[1] in ("re.match", "re.search", "re.fullmatch")
-                   and e[2] and e[2][0] is PAT]
-        if not matches:
-            if tr.hooks.parsed == 0 and not tr.engine_sql:
-                continue  # undefined-variable refusal
-            ctx.ob("C16.b", "configured pattern is consulted", False, "fakesnow/cursor.py")
-            ctx.violation("C16.b", "cursor", "FakeSnowflakeCursor.execute", "nop_regexes not consulted", "fakesnow/cursor.py",
-                          "a configured nop_regexes pattern is never matched against the statement")
-            continue
-        m = matches[0]
-        fn, args, kwargs = m[1], m[2], m[3]
-        flags = args[2] if len(args) > 2 else kwargs.get("flags")
-        subject = args[1] if len(args) > 1 else None
-        ok_fn = fn == "re.match"
-        ok_flags = flags is not None and "IGNORECASE" in tagof(flags)
-        ok_subj = isinstance(subject, Sym) and subject.origin and subject.origin[0] == "binop" and subject.origin[1] == "Mod"
-        ctx.ob("C16.b", "pattern matched at the start (re.match), case-insensitively, against the parameter-substituted text",
-               ok_fn and ok_flags and ok_subj, "fakesnow/cursor.py", f"{fn} flags={tagof(flags)} subject={tagof(subject)[:40]}")
-        if not (ok_fn and ok_flags and ok_subj):
-            why = ("uses " + fn + " instead of re.match (anchored at the start)" if not ok_fn else
-                   "is case-sensitive" if not ok_flags else "is applied to text that is not the parameter-substituted command")
-            ctx.violation("C16.b", "cursor", "FakeSnowflakeCursor.execute", f"nop match {why[:40]}", "fakesnow/cursor.py",
-                          f"the nop_regexes match {why}")
-        matched = any(t.startswith("truthy(re.match") and v for t, v in tr.path.assumed) or any(
-            t.startswith("truthy(re.") and v and "@" in t and "search()@6" not in t for t, v in tr.path.assumed if "match" in t)
-        site = m[4]
-        prefix = f"truthy({m[1]}()@{getattr(site, 'lineno', 0)}:{getattr(site, 'col_offset', 0)}"
-        res_truth = [v for t, v in tr.path.assumed if t.startswith(prefix)]
-        matched = bool(res_truth and res_truth[0])
-        if matched:
-            n_match += 1
-            ok = (tr.hooks.parsed == 0 and len(tr.engine_sql) == 1 and "SUCCESS_NOP" in tagof(tr.engine_sql[0])
-                  and tr.path.outcome == "return")
-            ctx.ob("C16.b", "match: only the success no-op reaches the engine, nothing is parsed", ok, "fakesnow/cursor.py",
-                   f"parsed={tr.hooks.parsed} engine={[tagof(s)[:30] for s in tr.engine_sql]}")
-            if not ok:
-                ctx.violation("C16.b", "cursor", "FakeSnowflakeCursor.execute", "nop match falls through", "fakesnow/cursor.py",
-                              f"a statement matching nop_regexes still has {tr.hooks.parsed} parse(s) and engine statements "
-                              f"{[tagof(s)[:40] for s in tr.engine_sql]}: it must return the success status and have no effect")
-        else:
-            n_nomatch += 1
-            ok = tr.hooks.parsed == 1 and tr.engine_sql and "SUCCESS_NOP" not in tagof(tr.engine_sql[0])
-            ctx.ob("C16.b", "no match: the statement takes the normal path", ok, "fakesnow/cursor.py")
-            if not ok:
-                ctx.violation("C16.b", "cursor", "FakeSnowflakeCursor.execute", "non-matching statement not executed", "fakesnow/cursor.py",
-                              "a statement that does not match any nop_regexes pattern is not executed normally")
+    for scenario in (True, False):
+        for tr in run_execute(prog, "SELECT", None, nop_regexes=Lst([PAT]), variables={"V": Const("1")},
+                              params=Tup([Sym("P1")]), paramstyle="pyformat", nop_match=scenario):
+            calls = [c for c in tr.hooks.nop_calls if c[1] and c[1][0] is PAT]
+            if not calls:
+                ctx.ob("C16.b", "configured pattern is consulted", False, "fakesnow/cursor.py")
+                ctx.violation("C16.b", "cursor", "FakeSnowflakeCursor.execute", "nop_regexes not consulted", "fakesnow/cursor.py",
+                              "a configured nop_regexes pattern is never matched against the statement")
+                continue
+            fn, args, kwargs, site = calls[0]
+            flags = args[2] if len(args) > 2 else kwargs.get("flags")
+            subject = args[1] if len(args) > 1 else None
+            ok_fn = fn == "re.match"
+            ok_flags = flags is not None and "IGNORECASE" in tagof(flags)
+            ok_subj = isinstance(subject, Sym) and subject.origin and subject.origin[0] == "binop" and subject.origin[1] == "Mod"
+            ctx.ob("C16.b", "pattern matched at the start (re.match), case-insensitively, against the parameter-substituted text",
+                   ok_fn and ok_flags and ok_subj, "fakesnow/cursor.py", f"{fn} flags={tagof(flags)} subject={tagof(subject)[:40]}")
+            if not (ok_fn and ok_flags and ok_subj):
+                why = ("uses " + fn + " instead of re.match (anchored at the start)" if not ok_fn else
+                       "is case-sensitive" if not ok_flags else "is applied to text that is not the parameter-substituted command")
+                ctx.violation("C16.b", "cursor", "FakeSnowflakeCursor.execute", f"nop match {why[:40]}", "fakesnow/cursor.py",
+                              f"the nop_regexes match {why}")
+            if scenario:
+                n_match += 1
+                ok = (tr.hooks.parsed == 0 and len(tr.engine_sql) == 1 and "SUCCESS_NOP" in tagof(tr.engine_sql[0]) and tr.path.outcome == "return")
+                ctx.ob("C16.b", "match: only the success no-op reaches the engine, nothing is parsed", ok, "fakesnow/cursor.py",
+                       f"parsed={tr.hooks.parsed} engine={[tagof(s)[:30] for s in tr.engine_sql]}")
+                if not ok:
+                    ctx.violation("C16.b", "cursor", "FakeSnowflakeCursor.execute", "nop match falls through", "fakesnow/cursor.py",
+                                  f"a statement matching nop_regexes still has {tr.hooks.parsed} parse(s) and engine statements "
+                                  f"{[tagof(s)[:40] for s in tr.engine_sql]}: it must return the success status and have no effect")
+            else:
+                n_nomatch += 1
+                ok = tr.hooks.parsed == 1 and tr.engine_sql and "SUCCESS_NOP" not in tagof(tr.engine_sql[0])
+                ctx.ob("C16.b", "no match: the statement takes the normal path", bool(ok), "fakesnow/cursor.py")
+                if not ok:
+                    ctx.violation("C16.b", "cursor", "FakeSnowflakeCursor.execute", "non-matching statement not executed", "fakesnow/cursor.py",
+                                  "a statement that does not match any nop_regexes pattern is not executed normally")
     ctx.floor("C16.b matching paths", n_match, 1)
     ctx.floor("C16.b non-matching paths", n_nomatch, 1)
     # without the option no pattern is consulted and the statement runs normally
-    for tr in run_execute(prog, "SELECT", None):
+    for tr in run_execute(prog, "SELECT", None, nop_match=False):
         if not tr.hooks.parsed:
             continue
-        ms = [e for e in tr.path.effects if e[0] == "call" and e[1].startswith("re.match")]
-        ok = not ms and tr.engine_sql
+        ok = not tr.hooks.nop_calls and tr.engine_sql
         ctx.ob("C16.b", "without nop_regexes nothing is matched", bool(ok), "fakesnow/cursor.py")
 
 
